@@ -12,7 +12,8 @@ import (
 //
 //	index.autoindex.replace, column.charset.modify.notable, column.collation.modify.notable,
 //	column.default.case, column.default.cast, check.add.colname, table.autoincrement.add / .drop,
-//	index.autosummarize, column.generated.spelling, fk.positional.permute / .permute.action / .append
+//	index.autosummarize, column.generated.spelling, fk.positional.permute / .permute.action / .append,
+//	index.ops.drop.method, index.ops.drop.coltype
 //	                      see autoIndexEdits, charsetNoTableEdits, defaultCaseEdits, defaultCastEdits,
 //	                      checkColumnNameEdits
 //	pk.parts.shrink.null  the last column of a composite primary key leaves the key and becomes nullable
@@ -50,8 +51,47 @@ func ExtraCatalogue(m *Model) []Edit {
 		c.brinParamEdits(t)
 		c.generatedSpellingEdits(t)
 		c.positionalFKEdits(t)
+		c.opClassCompoundEdits(t)
 	}
 	return c.out
+}
+
+// opClassCompoundEdits (PostgreSQL): an explicit operator class disappears from an index part TOGETHER
+// with a second edit that changes what the default class of that part is:
+//
+//	index.ops.drop.method   GiST (c inet_ops) -> btree (c): inet_ops is not the default of GiST, so the
+//	                        class was removed (ChangeParts) and the method changed (ChangeAttr)
+//	index.ops.drop.coltype  btree (c int4_ops), c integer -> btree (c), c bigint: int4_ops IS the default
+//	                        for integer, so the index did not change; only ModifyColumn[Type]
+func (c *catalogue) opClassCompoundEdits(t *Table) {
+	if c.d != Postgres {
+		return
+	}
+	n := t.Name
+	for _, idx := range t.Indexes {
+		if len(idx.Parts) != 1 || idx.Parts[0].Col == "" || idx.Parts[0].Ops == "" {
+			continue
+		}
+		in, p := idx.Name, idx.Parts[0]
+		col := t.Column(p.Col)
+		switch {
+		case strings.EqualFold(idx.Type, "GIST") && col.Type.Class == CNet && p.Ops == "inet_ops":
+			c.add("index.ops.drop.method", n, in, "btree", modIdx(n, in, schema.ChangeAttr|schema.ChangeParts), func(m *Model) {
+				x := m.Table(n).Index(in)
+				x.Type, x.Parts[0].Ops = "", ""
+			})
+		case idx.Type == "" && col.Type.T == "integer" && p.Ops == "int4_ops":
+			x := c.colContext(t, col)
+			if x.inPK || x.inOwnFK || x.referenced || col.Default != nil || col.Identity != nil || col.Generated != nil {
+				continue
+			}
+			cn := col.Name
+			c.add("index.ops.drop.coltype", n, in, cn, modCol(n, cn, schema.ChangeType), func(m *Model) {
+				m.Table(n).Index(in).Parts[0].Ops = ""
+				m.Table(n).Column(cn).Type = Type{Class: CInt, T: "bigint"}
+			})
+		}
+	}
 }
 
 // brinParamEdits (PostgreSQL): index.autosummarize — the autosummarize storage parameter of a BRIN index
@@ -457,6 +497,20 @@ func ExtraPool(d Dialect) []*Model {
 				},
 			}))
 	}
+	if d == Postgres {
+		// explicit operator classes: a non-default one (GiST inet_ops, text_pattern_ops) and a spelled-out default.
+		out = append(out, newModel(d, "opclass",
+			&Table{Name: "t1",
+				Columns: []*Column{Col("c1", ty.BigInt()), Col("c2", Type{Class: CNet, T: "inet"}), Col("c3", ty.Int()), Col("c4", ty.Text(), Nullable()), Col("c5", ty.Int(), Nullable())},
+				PK:      &PrimaryKey{Cols: []string{"c1"}},
+				Indexes: []*Index{
+					{Name: "i1", Type: "GIST", Parts: []Part{{Col: "c2", Ops: "inet_ops"}}},
+					{Name: "i2", Parts: []Part{{Col: "c3", Ops: "int4_ops"}}},
+					{Name: "i3", Parts: []Part{{Col: "c4", Ops: "text_pattern_ops"}}},
+					{Name: "i4", Parts: []Part{{Col: "c5", Ops: "int4_ops"}}, Unique: true},
+				},
+			}))
+	}
 	if d == SQLite {
 		// unnamed foreign keys as inspection reports them: symbols are positions.
 		out = append(out, newModel(d, "fk-positional",
@@ -540,7 +594,7 @@ func ambiguousAutoIndexes(d Dialect, a, b *Table) string {
 	}
 	for _, j := range b.Indexes {
 		if IsAutoIndexName(j.Name) {
-			if i := a.Index(j.Name); i == nil || refIndex(d, i, j) != 0 {
+			if i := a.Index(j.Name); i == nil || refIndexT(d, a, b, i, j) != 0 {
 				return "generated sqlite index name on the desired side (rewritten before comparing)"
 			}
 		}
@@ -549,7 +603,7 @@ func ambiguousAutoIndexes(d Dialect, a, b *Table) string {
 		if !IsAutoIndexName(i.Name) || b.Index(i.Name) != nil {
 			continue
 		}
-		if j := b.Index(autoIndexDerivedName(a, i)); j != nil && j.Unique == i.Unique && refIndex(d, i, j)&schema.ChangeParts == 0 {
+		if j := b.Index(autoIndexDerivedName(a, i)); j != nil && j.Unique == i.Unique && refIndexT(d, a, b, i, j)&schema.ChangeParts == 0 {
 			return "generated sqlite index replaced by the index with its derived name and definition"
 		}
 	}
@@ -595,3 +649,54 @@ func ambiguousDefaults(d Dialect, a, b *Table) string {
 
 // genSpelling sets the Spelling of the generated column under construction (after Gen).
 func genSpelling(sp string) ColOpt { return func(c *Column) { c.Generated.Spelling = sp } }
+
+// GenNameAdd is one "generated name + a new unnamed index" pair (see GenNameAddVariants).
+type GenNameAdd struct {
+	Tag      string // "append" / "prepend": where the new unnamed index is listed
+	From, To *Model
+	Want     []Desc
+}
+
+// GenNameAddVariants extends GenNameVariant: in To the index with the generated name is unnamed (it is the
+// counterpart of From's index, matched by its parts) AND one more, new, unnamed index is declared, after or
+// before it. Exactly one AddIndex (of an index without a name) is expected. The To models hold two unnamed
+// indexes, which Validate does not accept for ordinary models; they are only meant for Build / Eval.
+func GenNameAddVariants(m *Model) []GenNameAdd {
+	from, to, ok := GenNameVariant(m)
+	if !ok {
+		return nil
+	}
+	var out []GenNameAdd
+	for ti, t := range to.Tables {
+		var counterpart *Index
+		for _, i := range t.Indexes {
+			if i.Name == "" {
+				counterpart = i
+			}
+		}
+		if counterpart == nil {
+			continue
+		}
+		for _, col := range t.Columns {
+			if col.Type.Class != CInt && !(col.Type.Class == CString && (col.Type.Size > 0 || m.Dialect != MySQL)) {
+				continue
+			}
+			if len(counterpart.Parts) == 1 && counterpart.Parts[0].Col == col.Name {
+				continue
+			}
+			nu := &Index{Parts: []Part{{Col: col.Name, Desc: true}}}
+			for _, tag := range []string{"append", "prepend"} {
+				cp := to.Clone()
+				x := cp.Tables[ti]
+				if tag == "append" {
+					x.Indexes = append(x.Indexes, nu)
+				} else {
+					x.Indexes = append([]*Index{nu}, x.Indexes...)
+				}
+				out = append(out, GenNameAdd{Tag: tag, From: from.Clone(), To: cp, Want: []Desc{{Kind: "AddIndex", Table: t.Name}}})
+			}
+			return out
+		}
+	}
+	return out
+}
